@@ -173,6 +173,21 @@ def rule_received_applied(ctx):
                 inside_handler = any(n in list(ast.walk(h)) for h in t.handlers if h.type is not None and ast.unparse(h.type) == "BaseException")
                 cancel_only_in_except = cancel_only_in_except and inside_handler
     ctx.check(ok, rl.fq, "in-flight handlers are awaited in finally", "the connection ends without waiting for handlers of requests that were received in full", "finally: gather", where=ctx.where_of(rl))
+    # implicit cancellation: a bounded wait (asyncio.timeout / timeout_at / wait_for / wait(timeout=)) cancels what it
+    # waits for when the bound expires
+    bounded = []
+    for t in tries:
+        for st in t.finalbody:
+            for n in ast.walk(st):
+                if isinstance(n, (ast.AsyncWith, ast.With)):
+                    for it in n.items:
+                        if isinstance(it.context_expr, ast.Call) and callee_name(it.context_expr) in ("timeout", "timeout_at", "move_on_after", "fail_after"):
+                            bounded.append(ast.unparse(it.context_expr))
+                if isinstance(n, ast.Call) and callee_name(n) == "wait_for":
+                    bounded.append(ast.unparse(n.func))
+                if isinstance(n, ast.Call) and callee_name(n) == "wait" and any(k.arg == "timeout" for k in n.keywords):
+                    bounded.append(ast.unparse(n.func) + "(timeout=)")
+    ctx.check(not bounded, rl.fq, "the wait for in-flight handlers is unbounded", f"the wait is bounded by {bounded}: when the bound expires the handlers of fully received requests are cancelled, so a request is dropped or applied in part only because its client is gone", "no timeout", where=ctx.where_of(rl))
     ctx.check(cancel_only_in_except, rl.fq, "handlers are cancelled only when the loop itself fails", "handlers are cancelled on an ordinary disconnect: a received request is applied only in part", "cancel only in except BaseException")
     cc = ctx.prog.func("rpc._call_and_capture_failure")
     handlers = [h for t in ast.walk(cc.node) if isinstance(t, ast.Try) for h in t.handlers]
@@ -190,6 +205,7 @@ RULES = [
 ]
 
 MUTANTS = [
+    Mutant("gather-with-grace", "rpc.py", in_function("RPCServerConnection._recv_loop", replace_once("            await asyncio.gather(*self._tasks, return_exceptions=True)\n", "            try:\n                async with asyncio.timeout(5.0):\n                    await asyncio.gather(*self._tasks, return_exceptions=True)\n            except TimeoutError:\n                pass\n")), ("R-C15-5",)),
     Mutant("two-mutating-regions", "director.py", in_function("DirectorHandler.declare_static", lambda s: s.replace("            to_check.update(self.workflow.declare_static_files(creator, file_paths))\n", "        async with self.db:\n            to_check.update(self.workflow.declare_static_files(creator, file_paths))\n", 1) if "to_check.update(self.workflow.declare_static_files(creator, file_paths))" in s else None), ("R-C15-1",)),
     Mutant("submit-inside-region", "director.py", in_function("DirectorHandler.define_step", lambda s: s.replace("        self._submit_to_check(to_check)\n", "", 1).replace("                duration=duration,\n            )\n", "                duration=duration,\n            )\n            self._submit_to_check(to_check)\n", 1) if "self._submit_to_check(to_check)" in s else None), ("R-C15-1",)),
     Mutant("swallow-graph-error", "trellis.py", in_function("Node.add_source", lambda s: s.replace('            raise GraphError("Relation already exists") from exc\n', "            return -1\n") if "Relation already exists" in s else None), ("R-C15-3",)),
